@@ -282,5 +282,52 @@ theorem merge2_good (old : Option Content) (ca cb : List Content) :
           | true => rw [merge2]; exact stepA _ x xs _ rfl rfl
           | false => rw [merge2]; exact stepB _ y ys _ rfl rfl
 
+/-! ### A reader open across an overwrite (part E5): invariant of `rStep .asCoded` -/
+
+/-- What an open reader has delivered is a prefix of the content it was opened on, and its bytes
+    are still that content. -/
+def RInv (old : List Char) (st : RSt) : Prop := st.snap = old ∧ st.got = old.take st.pos
+
+theorem rinv_init (old : List Char) : RInv old (RSt.init old) := ⟨rfl, by simp [RSt.init]⟩
+
+theorem rStep_closeW_fields (st : RSt) :
+    (rStep .asCoded st .closeW).snap = st.snap ∧ (rStep .asCoded st .closeW).got = st.got ∧
+      (rStep .asCoded st .closeW).pos = st.pos := by
+  cases hf : st.flight with
+  | nil => simp [rStep, hf]
+  | cons x rest =>
+    obtain ⟨same, c⟩ := x
+    cases same <;> simp [rStep, hf, donate]
+
+theorem rStep_inv (old : List Char) (st : RSt) (op : ROp) (h : RInv old st) :
+    RInv old (rStep .asCoded st op) := by
+  obtain ⟨hs, hg⟩ := h
+  cases op with
+  | read n =>
+    refine ⟨hs, ?_⟩
+    show st.got ++ (st.snap.drop st.pos).take n = old.take (st.pos + n)
+    rw [hs, hg]
+    exact (List.take_add).symm
+  | put c => exact ⟨hs, hg⟩
+  | other c => exact ⟨hs, hg⟩
+  | wSame c => exact ⟨hs, hg⟩
+  | wOther c => exact ⟨hs, hg⟩
+  | closeW =>
+    obtain ⟨h1, h2, h3⟩ := rStep_closeW_fields st
+    exact ⟨h1.trans hs, by rw [h2, h3]; exact hg⟩
+
+theorem rfold_inv (old : List Char) (ops : List ROp) (st : RSt) (h : RInv old st) :
+    RInv old (ops.foldl (rStep .asCoded) st) := by
+  induction ops generalizing st with
+  | nil => exact h
+  | cons op rest ih => exact ih _ (rStep_inv old st op h)
+
+theorem closeAll_got (l : List (Bool × List Char)) (st : RSt) :
+    (l.foldl (fun s _ => rStep .asCoded s .closeW) st).got = st.got := by
+  induction l generalizing st with
+  | nil => rfl
+  | cons x rest ih =>
+    rw [List.foldl_cons, ih]
+    exact (rStep_closeW_fields st).2.1
 
 end BufProofs.C15
